@@ -34,6 +34,18 @@ HARNESSES = [{'id': 'c07_binary',
   'oracle': 'C++ semantics',
   'bounds': {'quick': {'unwind': 22, 'cap': 600}}}]
 
+HARNESSES += [
+    dict(id='c07_enum_increment', property='C07', src='c07_enum.cxx', entry='harness_c07_enum_increment',
+         tus=['src/cppparser/cppEnumType.cxx', 'src/cppparser/cppExtensionType.cxx', 'src/cppparser/cppInstance.cxx', 'src/cppparser/cppIdentifier.cxx',
+              'src/cppparser/cppNameComponent.cxx', 'src/cppparser/cppExpression.cxx', 'src/cppparser/cppDeclaration.cxx', 'src/cppparser/cppFile.cxx',
+              'src/cppparser/cppAttributeList.cxx', 'src/cppparser/cppType.cxx', 'src/dtoolutil/filename.cxx'],
+         cut=['_ZN7CPPType8new_typeEPS_'],
+         desc='CPPEnumType::add_element: implicit enumerators after an initializer of shape literal / a+n / a-n / (a-n)+1 / n-a / -a',
+         domain='a, n symbolic in (-1e5, 1e5); 6 initializer shapes (concrete loop), two implicit successors each',
+         oracle='successor value == previous + 1 via the real evaluator; first implicit enumerator is 0',
+         bounds=dict(quick=dict(unwind=8, unwindset={'ll_strlen.0': 8, 'll_memcpy.0': 20}, cap=1200))),
+]
+
 PROPERTY_INFO = {'C07': {'level': 'model_checking',
          'explanation': 'bounded symbolic execution (CBMC) of CPPExpression::evaluate on trees built by the real constructors',
          'outside': 'operator precedence/associativity (bison tables), references to earlier enumerators/macros (scope lookup), literal lexing '
